@@ -15,7 +15,8 @@ REAL = ["pyvsc (all of src/vsc)", "PyBoolector solver", "Python random (RandStat
 STUB = ["user code (generated)", "stdout (sink)"]
 ASSUMPTIONS = ["reference enumerator + evaluator (DESIGN 3.1) decide satisfiability exactly on the "
                "generated (unambiguous) shapes"]
-REQUIRED_NONZERO = {"*": ["sat_calls", "unsat_calls", "faults_fired.force_unsat", "probes"]}
+REQUIRED_NONZERO = {"*": ["sat_calls", "unsat_calls", "faults_fired.force_unsat", "probes",
+                          "kind_list", "kind_rl"]}
 
 
 def budget(tier):
@@ -45,8 +46,54 @@ def contradiction(rng, prog):
         [progs.EXPR(progs.BIN("<", fe, progs.LIT(lo)))]
 
 
+def list_scenario(st, tier):
+    """small list program (fixed-size lists of 2-bit elements, foreach / aggregates, conditions on
+    non-random fields) with list edits between calls"""
+    rng = st.prog
+    cfg = {"widths": [2], "signed": False, "depth": 1, "max_stmts": 3, "max_blocks": 2, "ps": False,
+           "shifts": False, "divmod": False, "arith": ["+", "-"], "stmts": ["expr", "expr", "in", "if"],
+           "nonrand": True}
+    g = progs.ListGen(rng, cfg)
+    prog = g.list_program(allow_randsz=False, allow_obj=False)
+    for c in prog["classes"]:
+        for f in c["fields"]:
+            if f["k"] == "s":
+                f["w"] = min(f["w"], 3)
+    P = refsem.Prog(prog)
+    lists = [f for f in P.fields("K0") if f["k"] == "l"]
+    nr = scen.nonrand_fields(prog, "K0")
+    orng = st.ops
+    go = progs.Gen(orng, cfg)
+    ops = [{"op": "new", "cls": "K0"}, {"op": "seed", "p": 0, "k": st.lib.randint(0, 1 << 30)}]
+    fixed = str(prog)
+    for _ in range(orng.randint(6, 20 if tier == "quick" else 40)):
+        r = orng.random()
+        if r < 0.5:
+            ops.append({"op": "randomize", "p": 0})
+        elif r < 0.65 and lists:
+            lf = orng.choice(lists)
+            ops.append({"op": "lappend", "p": 0, "path": [lf["n"]], "v": orng.randint(0, 3)})
+        elif r < 0.8 and nr:
+            f = orng.choice(nr)
+            ops.append({"op": "assign", "p": 0, "path": [f["n"]], "v": go.in_range_value(f)})
+        else:
+            own = progs.fields_with_paths(P.cls("K0"))[0]
+            ops.append({"op": "rw", "p": 0, "inline": [progs.simple_stmt(orng, own)] if own else []})
+    return prog, g, cfg, ops
+
+
 def generate(seed, tier):
     st = Streams(seed)
+    kind = st.prog.choice(["flat"] * 6 + ["list"] * 3 + ["rl"] * 2)
+    if kind == "list":
+        prog, g, cfg, ops = list_scenario(st, tier)
+        frng = st.fault
+        for op in ops:
+            if op["op"] == "rw" and frng.random() < 0.4:
+                op["inline"] = op["inline"] + contradiction(frng, prog)
+                op["fault"] = "force_unsat"
+        return {"prop": ID, "seed": seed, "prog": prog, "ops": ops, "kind": kind,
+                "probe_seed": frng.randint(0, 1 << 30)}
     prog, g, cfg = scen.flat_program(st, True)
     tries = 0
     while scen.rand_domain_size(prog, "K0") > 4096 and tries < 10:
@@ -57,6 +104,24 @@ def generate(seed, tier):
     n_ops = st.ops.randint(6, 30 if tier == "quick" else 60)
     ops = scen.history_ops(st, prog, g, n_parties, n_ops,
                            mix={"randomize": 45, "rw": 25, "assign": 20, "seed": 10})
+    if kind == "rl":
+        # a mutable rangelist, replaced in place (same and different length) between calls
+        k0 = prog["classes"][0]
+        sf = [f for f in k0["fields"] if f["k"] == "s" and f.get("r")]
+        if sf:
+            f = st.prog.choice(sf)
+            lo, hi = (-(1 << (f["w"] - 1)), (1 << (f["w"] - 1)) - 1) if f["s"] else (0, (1 << f["w"]) - 1)
+            k0["rls"] = [{"n": "rl0", "items": [st.prog.randint(lo, hi), st.prog.randint(lo, hi)]}]
+            k0["blocks"].append({"n": "crl", "stmts": [progs.EXPR({"t": "inrl", "e": progs.F(f["n"]), "name": "rl0"})]})
+            extra = []
+            for op in ops:
+                extra.append(op)
+                if op["op"] in ("randomize", "rw") and st.ops.random() < 0.3:
+                    n_it = st.ops.choice([2, 2, 1, 3])
+                    extra.append({"op": "rl", "p": op["p"], "name": "rl0", "act": "clear", "items": []})
+                    extra.append({"op": "rl", "p": op["p"], "name": "rl0", "act": "extend",
+                                  "items": [st.ops.randint(lo, hi) for _ in range(n_it)]})
+            ops = extra
     # force_unsat faults + solve_fail_debug settings
     frng = st.fault
     for op in ops:
@@ -65,7 +130,7 @@ def generate(seed, tier):
             op["fault"] = "force_unsat"
         if op["op"] in ("rw", "randomize") and frng.random() < 0.3:
             op["sfd"] = 1
-    return {"prop": ID, "seed": seed, "prog": prog, "ops": ops,
+    return {"prop": ID, "seed": seed, "prog": prog, "ops": ops, "kind": kind,
             "probe_seed": frng.randint(0, 1 << 30)}
 
 
@@ -97,6 +162,7 @@ def execute(rec):
     viol = []
     stats = {"sat_calls": 0, "unsat_calls": 0, "probes": 0, "ambiguous_skipped": 0,
              "faults_fired": {}, "enumerations": 0, "sfd_calls": 0}
+    stats["kind_" + rec.get("kind", "flat")] = 1
     obs = []
     cache = {}
     nontrivial = False
@@ -113,7 +179,7 @@ def execute(rec):
         before = w.tree(p)
         rpaths = w.rand_paths(p, before)
         inline = op.get("inline")
-        key = kernel.digest([before, inline, sorted(pt.rand_off), pt.modes])
+        key = kernel.digest([before, inline, sorted(pt.rand_off), pt.modes, pt.rangelists])
         sols = None
         try:
             if key not in cache:
